@@ -595,7 +595,8 @@ impl<const M: usize> Sim<M> {
     // alloc_slice_try_fill_with / alloc_slice_try_fill_iter
 
     fn try_fill<T: Word, E: Tok>(&mut self, op: Op) {
-        let len = (op.c as usize) % 80;
+        // mostly short slices; one in eight is long enough to need a chunk (or several pages) of its own
+        let len = if op.a & 0x38 == 0x38 { (op.c as usize) * 37 + (op.b as usize & 7) } else { (op.c as usize) % 80 };
         let fail_at = (op.b as usize * (len + 1)) >> 8; // == len means: no failure
         let use_iter = op.a & 1 == 1;
         let l = Layout::array::<T>(len).unwrap();
